@@ -68,21 +68,40 @@ def run(ck: Checker):
                 place.add(n.id)
         # marker tests on z
         marker = {}
+        mforms = {}
         mine = reachable(cfg, [e.dst for e in cfg.normal_succ(g.id)], avoid={k.id for k in gets})
+
+        def marker_test(t):
+            """(label on which `z` IS the end marker, forms recognised) or None"""
+            if isinstance(t, ast.UnaryOp) and isinstance(t.op, ast.Not):
+                r = marker_test(t.operand)
+                return ({'T': 'F', 'F': 'T'}[r[0]], r[1]) if r else None
+            if isinstance(t, ast.Compare) and len(t.ops) == 1 and is_name(t.left, z):
+                op, r = t.ops[0], t.comparators[0]
+                if isinstance(op, (ast.Is, ast.IsNot)) and is_none(r):
+                    return ('T' if isinstance(op, ast.Is) else 'F', {'none'})
+                if isinstance(op, (ast.Eq, ast.NotEq)) and is_name(r, end):
+                    return ('T' if isinstance(op, ast.Eq) else 'F', {'custom'})
+                return None
+            if isinstance(t, ast.IfExp) and isinstance(t.test, ast.Compare) and len(t.test.ops) == 1 and is_name(t.test.left, end) and is_none(t.test.comparators[0]) and isinstance(t.test.ops[0], (ast.Is, ast.IsNot)):
+                # `(z is None) if end is None else (z == end)`: the two forms selected by the configuration in one expression
+                a, b = (t.body, t.orelse) if isinstance(t.test.ops[0], ast.Is) else (t.orelse, t.body)
+                ra, rb = marker_test(a), marker_test(b)
+                if ra and rb and ra[0] == rb[0] and ra[1] == {'none'} and rb[1] == {'custom'}:
+                    return (ra[0], {'none', 'custom'})
+            return None
+
         for n in cfg.nodes:
-            if n.id in mine and n.kind == 'test' and isinstance(n.ast, ast.Compare) and is_name(n.ast.left, z):
-                op, r = n.ast.ops[0], n.ast.comparators[0]
-                if isinstance(op, ast.Is) and is_none(r):
-                    marker[n.id] = 'T'
-                elif isinstance(op, ast.Eq) and is_name(r, end):
-                    marker[n.id] = 'T'
-                elif isinstance(op, ast.IsNot) and is_none(r):
-                    marker[n.id] = 'F'
-                elif isinstance(op, ast.NotEq) and is_name(r, end):
-                    marker[n.id] = 'F'
+            if n.id in mine and n.kind == 'test':
+                r = marker_test(n.ast)
+                if r:
+                    marker[n.id], mforms[n.id] = r
         others = {k.id for k in gets}
         stop_at = others | {cfg.exit_return, cfg.exit_raise}
         probs = []
+        ident = [n for n in cfg.nodes if n.id in mine and n.kind == 'test' and isinstance(n.ast, ast.Compare) and is_name(n.ast.left, z) and isinstance(n.ast.ops[0], (ast.Is, ast.IsNot)) and is_name(n.ast.comparators[0], end)]
+        if ident:
+            probs.append(f'L{ident[0].lineno}: `{norm_text(ident[0].ast)}` compares the custom end marker by identity: an equal marker that is another object (e.g. after crossing a process queue) is treated as data and the iteration never ends')
         if not marker:
             probs.append(f'`{z}` is never compared with the end marker')
         # (1) the marker is never placed
@@ -91,7 +110,7 @@ def run(ck: Checker):
             if p is not None:
                 probs.append(f'the end marker can be placed into a batch (via L{cfg.nodes[tid].lineno})')
         # both forms of the marker are tested: `is None` when no custom marker, `==` otherwise
-        forms = {('none' if is_none(cfg.nodes[t].ast.comparators[0]) else 'custom') for t in marker}
+        forms = {x for t in marker for x in mforms[t]}
         if forms != {'none', 'custom'}:
             probs.append(f'only the {sorted(forms)} form of the end marker is recognised after this get')
         # (2) a non-marker item is placed before the next get / exit
